@@ -2,10 +2,18 @@
 //!
 //! Protocol (one case = one `begin` line followed by operations), see lean/Driver/C12.lean:
 //!   begin L=<layer>;<layer>… strat=onhit|after:<n>|manual|freq|age hooks=none|md5|ngdp|noop|err skip=<n>
-//!         layer = m:<max_entries>:<max_bytes|none>:<lru|fifo>:<long|short> | d:<long|short>
+//!         layer = m:<max_entries>:<max_bytes|none>:<lru|fifo|lfu|random|ttl>:<long|short> | d:<long|short>
 //!   put k hex | putttl k hex long|short | putl k hex layer | get k | getl k layer
 //!   promote k from to | remove k | clear | bget k,k,… | bput k=hex,… | putv k ck hex
 //!   getv k ck|- | stats | fdel layer k | fset layer k hex | skipprobe len
+//!   put / putttl / putl / promote / bput / putv may carry a last token `ev=k1,k2|-`: the victims the
+//!   memory layer written by the call was SEEN to evict, given where the policy does not determine
+//!   them (Lfu ties, Random); the model checks that the choice is one the policy allows
+//!   (`victimsOk`, answer `bad-choice` otherwise) and follows it. A `bput` of two or more items is
+//!   outside the protocol (`bad-op`, not executed) when the first layer is an Lfu / Random memory
+//!   layer (victims cannot be observed item by item) or a Ttl-policy memory layer with a short
+//!   default TTL (an item is not yet expired when the next item of the same call is put, which
+//!   the TTL classes of the model cannot express).
 //!
 //! Every real call runs on a worker thread that owns the tokio runtime and the cache; the main
 //! thread waits for the answer with a deadline (WATCHDOG). A call that does not answer is the
@@ -14,7 +22,13 @@
 //!
 //! Clocks: the layers read std::time, so TTL class `short` = 1 ms followed by a real sleep, and
 //! between two calls the harness spins until Instant and SystemTime have both advanced (LRU /
-//! FIFO stamps strictly increasing, the victim choice of the model is then determined).
+//! FIFO stamps strictly increasing, the victim choice of the model is then determined; the Ttl
+//! policy evicts exactly the expired entries). For Lfu / Random layers the victims are observed:
+//! before a put that is due to evict, every key of the case is read from that layer with real
+//! `getl` calls (request lines like any other) except at most ONE key that may still be stored
+//! with an ended TTL (so that expired-at-capacity states stay reachable); after the put the keys
+//! that were there are read again, and the one unobserved key is settled by the entry count
+//! (`layer_stats`, no side effects).
 //!
 //! O (independent of the model): a shadow of what each (layer, key) definitely holds / definitely
 //! does not hold / may hold, derived only from the calls made (a memory layer may evict on any
@@ -44,9 +58,25 @@ const SKIP_ABOVE: usize = 100 * 1024 * 1024;
 
 // ---------------------------------------------------------------- configuration
 
+#[derive(Clone, Copy, Debug, PartialEq)]
+enum Pol { Lru, Fifo, Lfu, Random, Ttl }
+
+impl Pol {
+    const ALL: [Pol; 5] = [Pol::Lru, Pol::Fifo, Pol::Lfu, Pol::Random, Pol::Ttl];
+    fn text(self) -> &'static str {
+        match self { Pol::Lru => "lru", Pol::Fifo => "fifo", Pol::Lfu => "lfu", Pol::Random => "random", Pol::Ttl => "ttl" }
+    }
+    fn parse(t: &str) -> Option<Pol> { Pol::ALL.into_iter().find(|p| p.text() == t) }
+    fn real(self) -> EvictionPolicy {
+        match self { Pol::Lru => EvictionPolicy::Lru, Pol::Fifo => EvictionPolicy::Fifo, Pol::Lfu => EvictionPolicy::Lfu, Pol::Random => EvictionPolicy::Random, Pol::Ttl => EvictionPolicy::Ttl }
+    }
+    /// the victims are not a function of the history: they have to be observed
+    fn hinted(self) -> bool { matches!(self, Pol::Lfu | Pol::Random) }
+}
+
 #[derive(Clone, Debug, PartialEq)]
 enum LSpec {
-    Mem { max: usize, bytes: Option<usize>, fifo: bool, dshort: bool },
+    Mem { max: usize, bytes: Option<usize>, pol: Pol, dshort: bool },
     Disk { dshort: bool },
 }
 
@@ -54,10 +84,10 @@ impl LSpec {
     fn text(&self) -> String {
         let c = |s: &bool| if *s { "short" } else { "long" };
         match self {
-            LSpec::Mem { max, bytes, fifo, dshort } => format!(
+            LSpec::Mem { max, bytes, pol, dshort } => format!(
                 "m:{max}:{}:{}:{}",
                 bytes.map_or("none".to_string(), |b| b.to_string()),
-                if *fifo { "fifo" } else { "lru" },
+                pol.text(),
                 c(dshort)
             ),
             LSpec::Disk { dshort } => format!("d:{}", c(dshort)),
@@ -70,8 +100,7 @@ impl LSpec {
             ["m", mx, by, pol, dt] => {
                 let max = mx.parse().ok()?;
                 let bytes = if *by == "none" { None } else { Some(by.parse().ok()?) };
-                let fifo = match *pol { "fifo" => true, "lru" => false, _ => return None };
-                Some(LSpec::Mem { max, bytes, fifo, dshort: cl(dt)? })
+                Some(LSpec::Mem { max, bytes, pol: Pol::parse(pol)?, dshort: cl(dt)? })
             }
             ["d", dt] => Some(LSpec::Disk { dshort: cl(dt)? }),
             _ => None,
@@ -79,6 +108,7 @@ impl LSpec {
     }
     fn is_mem(&self) -> bool { matches!(self, LSpec::Mem { .. }) }
     fn dshort(&self) -> bool { match self { LSpec::Mem { dshort, .. } | LSpec::Disk { dshort } => *dshort } }
+    fn pol(&self) -> Option<Pol> { match self { LSpec::Mem { pol, .. } => Some(*pol), LSpec::Disk { .. } => None } }
 }
 
 #[derive(Clone, Debug)]
@@ -176,7 +206,11 @@ fn ck_of(s: &str) -> Option<[u8; 16]> {
 }
 
 fn parse_op(line: &str) -> Op {
-    let toks: Vec<&str> = line.split(' ').filter(|t| !t.is_empty()).collect();
+    let mut toks: Vec<&str> = line.split(' ').filter(|t| !t.is_empty()).collect();
+    // the victims hint of a recorded run is not replayed: the victims are observed again
+    if toks.len() >= 2 && toks[toks.len() - 1].starts_with("ev=") && matches!(toks[0], "put" | "putttl" | "putl" | "promote" | "bput" | "putv") {
+        toks.pop();
+    }
     let n = |s: &str| s.parse::<usize>().ok();
     let r = match toks.as_slice() {
         ["put", k, v] => n(k).zip(unhex(v)).map(|(k, v)| Op::Put(k, v)),
@@ -266,8 +300,8 @@ fn build_cache(cfg: &Cfg, dirs: &[Option<PathBuf>]) -> Result<MultiLayerCacheImp
     let mut mc = MultiLayerCacheConfig::new().with_promotion_strategy(strategy(&cfg.strat).ok_or(())?);
     for (i, l) in cfg.layers.iter().enumerate() {
         match l {
-            LSpec::Mem { max, bytes, fifo, dshort } => {
-                let mut c = MemoryCacheConfig::new().with_max_entries(*max).with_eviction_policy(if *fifo { EvictionPolicy::Fifo } else { EvictionPolicy::Lru });
+            LSpec::Mem { max, bytes, pol, dshort } => {
+                let mut c = MemoryCacheConfig::new().with_max_entries(*max).with_eviction_policy(pol.real());
                 c.max_memory_bytes = *bytes;
                 c.default_ttl = Some(if *dshort { SHORT } else { LONG });
                 c.cleanup_interval = LONG;
@@ -380,7 +414,12 @@ async fn exec(cache: &MultiLayerCacheImpl<RibbitKey>, cfg: &Cfg, dirs: &[Option<
     resp
 }
 
-enum Cmd { Run(Op), Quit }
+enum Cmd {
+    Run(Op),
+    /// entry count and bytes of one layer (`layer_stats`: reads two atomics, no side effects)
+    Peek(usize),
+    Quit,
+}
 
 struct Worker {
     tx: Sender<Cmd>,
@@ -401,9 +440,18 @@ impl Worker {
                 Ok(c) => { let _ = rtx.send("ok".to_string()); c }
                 Err(()) => { let _ = rtx.send("err:config".to_string()); return; }
             };
-            while let Ok(Cmd::Run(op)) = crx.recv() {
-                advance_clocks();
-                let r = catch(std::panic::AssertUnwindSafe(|| rt.block_on(exec(&cache, &cfg, &dirs, &op)))).unwrap_or_else(|_| "panic".to_string());
+            loop {
+                let r = match crx.recv() {
+                    Ok(Cmd::Run(op)) => {
+                        advance_clocks();
+                        catch(std::panic::AssertUnwindSafe(|| rt.block_on(exec(&cache, &cfg, &dirs, &op)))).unwrap_or_else(|_| "panic".to_string())
+                    }
+                    Ok(Cmd::Peek(i)) => match rt.block_on(cache.layer_stats(i)) {
+                        Ok(st) => format!("{} {}", st.entry_count, st.memory_usage_bytes),
+                        Err(e) => err_class(&e).to_string(),
+                    },
+                    _ => break,
+                };
                 if rtx.send(r).is_err() { break; }
             }
             rt.block_on(async { drop(cache) });
@@ -420,6 +468,14 @@ impl Worker {
         match self.rx.recv_timeout(limit) {
             Ok(r) => r,
             Err(_) => { self.dead = true; "timeout".to_string() }
+        }
+    }
+    /// (entry_count, memory_usage_bytes) of layer `i`
+    fn peek(&mut self, i: usize) -> Option<(usize, usize)> {
+        if self.dead || self.tx.send(Cmd::Peek(i)).is_err() { return None; }
+        match self.rx.recv_timeout(WATCHDOG) {
+            Ok(r) => { let (a, b) = r.split_once(' ')?; Some((a.parse().ok()?, b.parse().ok()?)) }
+            Err(_) => { self.dead = true; None }
         }
     }
     fn stop(mut self) {
@@ -522,6 +578,11 @@ struct Case {
     reported: BTreeSet<String>,
     nontrivial: BTreeSet<&'static str>,
     timeouts: u32,
+    /// every key a call of this case named
+    keys: BTreeSet<usize>,
+    /// (layer, key) that may be stored with an ended TTL and was not read since (bookkeeping of the
+    /// victims observation only; a wrong entry costs coverage, never correctness)
+    unswept: BTreeSet<(usize, usize)>,
 }
 
 fn temp_root() -> tempfile::TempDir {
@@ -539,7 +600,7 @@ fn md5_of(v: &[u8]) -> [u8; 16] { md5::compute(v).0 }
 impl Case {
     fn begin(s: &mut Session, line: &str) -> Case {
         let toks: Vec<&str> = line.split(' ').filter(|t| !t.is_empty()).collect();
-        let mut c = Case { cfg: None, worker: None, _root: None, sh: None, lines: vec![], reported: BTreeSet::new(), nontrivial: BTreeSet::new(), timeouts: 0 };
+        let mut c = Case { cfg: None, worker: None, _root: None, sh: None, lines: vec![], reported: BTreeSet::new(), nontrivial: BTreeSet::new(), timeouts: 0, keys: BTreeSet::new(), unswept: BTreeSet::new() };
         match Cfg::parse(&toks) {
             Ok(cfg) => {
                 let root = temp_root();
@@ -634,27 +695,163 @@ impl Case {
         }
     }
 
-    fn apply(&mut self, s: &mut Session, op: &Op) {
+    /// (entries to evict, target) if a put into memory layer `i` is due to evict by the policy now
+    /// (`needs_eviction` and `current_entries > target_entries`), from `layer_stats` alone
+    fn evict_due(&mut self, cfg: &Cfg, i: usize) -> Option<(usize, usize)> {
+        let LSpec::Mem { max, bytes, .. } = &cfg.layers[i] else { return None };
+        let (n0, b0) = self.worker.as_mut().expect("worker").peek(i)?;
+        let target = max * 90 / 100;
+        let needs = n0 >= *max || bytes.is_some_and(|m| b0 >= m);
+        if needs && n0 > target { Some((n0 - target, target)) } else { None }
+    }
+
+    /// the memory layer and key a call writes, if the call is a single layer put
+    fn write_target(op: &Op, cfg: &Cfg) -> Option<(usize, usize)> {
+        let n = cfg.layers.len();
+        let t = match op {
+            Op::Put(k, _) | Op::PutTtl(k, _, _) | Op::PutV(k, _, _) => Some((0, *k)),
+            Op::BPut(kvs) if kvs.len() == 1 => Some((0, kvs[0].0)),
+            Op::PutL(k, _, i) if *i < n => Some((*i, *k)),
+            Op::Promote(k, a, b) if *a < n && *b < n && a > b => Some((*b, *k)),
+            _ => None,
+        };
+        t.filter(|(i, _)| cfg.layers[*i].is_mem())
+    }
+
+    /// a `bput` of several items the protocol excludes (see the head of this file)
+    fn outside_protocol(op: &Op, cfg: &Cfg) -> bool {
+        match (op, &cfg.layers[0]) {
+            (Op::BPut(kvs), LSpec::Mem { pol, dshort, .. }) => kvs.len() >= 2 && (pol.hinted() || (*pol == Pol::Ttl && *dshort)),
+            _ => false,
+        }
+    }
+
+    fn op_keys(op: &Op) -> Vec<usize> {
+        match op {
+            Op::Put(k, _) | Op::PutTtl(k, _, _) | Op::PutL(k, _, _) | Op::Get(k) | Op::GetL(k, _) | Op::Promote(k, _, _) | Op::Remove(k)
+            | Op::PutV(k, _, _) | Op::GetV(k, _) | Op::FDel(_, k) | Op::FSet(_, k, _) => vec![*k],
+            Op::BGet(ks) => ks.clone(),
+            Op::BPut(kvs) => kvs.iter().map(|(k, _)| *k).collect(),
+            _ => vec![],
+        }
+    }
+
+    /// run one call on the real cache, write its request line, evaluate the oracle; returns the answer
+    fn apply(&mut self, s: &mut Session, op: &Op) -> String {
         s.tally(&format!("op.{}", op_name(op)));
-        let line = op_line(op);
+        let mut line = op_line(op);
         let Some(cfg) = self.cfg.clone() else {
             self.emit(s, line, "bad-op".into());
-            return;
+            return "bad-op".into();
         };
         if let Op::Raw(_) = op {
             self.emit(s, line, "bad-op".into());
-            return;
+            return "bad-op".into();
+        }
+        if Case::outside_protocol(op, &cfg) {
+            s.tally("op.bput.outside-protocol");
+            self.emit(s, line, "bad-op".into());
+            return "bad-op".into();
+        }
+        self.keys.extend(Case::op_keys(op));
+        // ---- victims of an Lfu / Random layer are observed, not computed
+        struct Obs { layer: usize, key: usize, before: Vec<usize>, unobserved: Option<usize>, n_ev: usize, target: usize }
+        let mut obs: Option<Obs> = None;
+        if let Some((i, wk)) = Case::write_target(op, &cfg) {
+            let pol = cfg.layers[i].pol().expect("memory layer");
+            if self.evict_due(&cfg, i).is_some() { s.tally(&format!("put.at-capacity.{}", pol.text())); }
+            if pol.hinted() && self.evict_due(&cfg, i).is_some() {
+                // leave at most one key that may be stored with an ended TTL unread, read all others
+                let unobserved = self.keys.iter().copied().find(|k| self.unswept.contains(&(i, *k)));
+                let mut before = vec![];
+                for q in self.keys.clone() {
+                    if Some(q) == unobserved { continue; }
+                    let r = self.apply(s, &Op::GetL(q, i));
+                    if self.timeouts > 0 { return r; }
+                    if r.starts_with("val ") { before.push(q); }
+                }
+                if let Some((n_ev, target)) = self.evict_due(&cfg, i) {
+                    obs = Some(Obs { layer: i, key: wk, before, unobserved, n_ev, target });
+                }
+            }
+            if self.evict_due(&cfg, i).is_some() && self.unswept.iter().any(|(l, _)| *l == i) {
+                s.tally(&format!("put.at-capacity.maybe-expired-entry.{}", pol.text()));
+                self.nontrivial.insert("expired-at-capacity");
+            }
         }
         let resp = self.worker.as_mut().expect("worker").call(op);
+        let mut probes: Vec<(Op, String)> = vec![];
+        if let Some(o) = obs.filter(|_| resp == "ok" || resp == "true") {
+            let w = self.worker.as_mut().expect("worker");
+            let n1 = w.peek(o.layer).map_or(usize::MAX, |x| x.0);
+            let mut gone = vec![];
+            for q in o.before.iter().copied().filter(|q| *q != o.key) {
+                let pr = Op::GetL(q, o.layer);
+                let r = w.call(&pr);
+                if r == "none" { gone.push(q); }
+                probes.push((pr, r));
+            }
+            // the written key was there, was evicted and came back iff one more entry is counted
+            let own = o.before.contains(&o.key) && n1 == o.target + 1;
+            let rest = o.n_ev as i64 - gone.len() as i64 - own as i64;
+            if own { gone.push(o.key); }
+            // what is left over is the one key nobody read (possibly the written key itself)
+            if let (1, Some(c)) = (rest, o.unobserved) { gone.push(c); }
+            if o.unobserved.is_some() { s.tally(if rest == 1 { "put.victims-observed.unread-key-evicted" } else { "put.victims-observed.unread-key-kept-or-absent" }); }
+            if own { s.tally("put.victims-observed.own-key-evicted"); }
+            gone.sort();
+            line = format!("{line} ev={}", if gone.is_empty() { "-".to_string() } else { gone.iter().map(|x| x.to_string()).collect::<Vec<_>>().join(",") });
+            self.nontrivial.insert("victims-observed");
+            s.tally("put.victims-observed");
+        }
         self.emit(s, line.clone(), resp.clone());
+        self.judge(s, op, &cfg, &line, &resp);
+        for (pr, r) in probes {
+            s.tally(&format!("op.{}", op_name(&pr)));
+            let l = op_line(&pr);
+            self.emit(s, l.clone(), r.clone());
+            self.judge(s, &pr, &cfg, &l, &r);
+        }
+        resp
+    }
+
+    fn track_unswept(&mut self, op: &Op, cfg: &Cfg, resp: &str) {
+        let n = cfg.layers.len();
+        let wrote = |u: &mut BTreeSet<(usize, usize)>, i: usize, k: usize, short: bool| { if short { u.insert((i, k)); } else { u.remove(&(i, k)); } };
+        match op {
+            Op::Put(k, _) | Op::PutV(k, _, _) if resp == "ok" => wrote(&mut self.unswept, 0, *k, cfg.layers[0].dshort()),
+            Op::PutTtl(k, _, short) if resp == "ok" => wrote(&mut self.unswept, 0, *k, *short),
+            Op::BPut(kvs) if resp == "ok" => for (k, _) in kvs { wrote(&mut self.unswept, 0, *k, cfg.layers[0].dshort()); },
+            Op::PutL(k, _, i) if resp == "ok" && *i < n => wrote(&mut self.unswept, *i, *k, cfg.layers[*i].dshort()),
+            Op::Promote(k, _, b) if resp == "true" && *b < n => wrote(&mut self.unswept, *b, *k, cfg.layers[*b].dshort()),
+            Op::GetL(k, i) => { self.unswept.remove(&(*i, *k)); }
+            Op::Get(k) | Op::GetV(k, _) => {
+                self.unswept.remove(&(0, *k));
+                if resp.starts_with("err:") { self.unswept.retain(|(_, q)| q != k); }
+            }
+            Op::BGet(ks) => for k in ks { self.unswept.remove(&(0, *k)); },
+            Op::Remove(k) => self.unswept.retain(|(_, q)| q != k),
+            Op::Clear => self.unswept.clear(),
+            _ => {}
+        }
+    }
+
+    /// O on one answered call (and the bookkeeping that follows from it)
+    fn judge(&mut self, s: &mut Session, op: &Op, cfg: &Cfg, line: &str, resp: &str) {
+        let line = line.to_string();
+        let resp = resp.to_string();
         if resp == "timeout" {
             self.timeouts += 1;
             let shape = match op {
                 Op::Get(k) => {
                     let sh = self.sh.as_ref().expect("shadow");
-                    match sh.expect(*k) { Some(Some((i, _))) if i > 0 => "get-served-by-lower-layer", Some(Some(_)) => "get-served-by-first-layer", _ => "get" }
+                    match sh.expect(*k) { Some(Some((i, _))) if i > 0 => "get-served-by-lower-layer".to_string(), Some(Some(_)) => "get-served-by-first-layer".to_string(), _ => "get".to_string() }
                 }
-                o => op_name(o),
+                // a write: the layer written and its eviction policy are part of the shape
+                o => match Case::write_target(o, cfg).or(match o { Op::BPut(_) => Some((0, 0)), _ => None }).filter(|(i, _)| cfg.layers[*i].is_mem()) {
+                    Some((i, _)) => format!("{}-into-{}-layer", op_name(o), cfg.layers[i].pol().map_or("disk", |p| p.text())),
+                    None => op_name(o).to_string(),
+                },
             };
             self.fail(s, &format!("ml-hang-{shape}"), format!("{line} did not return within {} s", WATCHDOG.as_secs()));
             return;
@@ -664,6 +861,7 @@ impl Case {
             self.fail(s, &format!("ml-panic-{}", op_name(op)), format!("{line} panicked"));
             return;
         }
+        self.track_unswept(op, cfg, &resp);
         let n = cfg.layers.len();
         let val = |r: &str| -> Option<Option<Vec<u8>>> {
             if r == "none" { Some(None) } else { r.strip_prefix("val ").and_then(unhex).map(Some) }
@@ -776,13 +974,23 @@ impl Case {
                     match resp.as_str() {
                         "true" => {
                             if a <= b { self.fail(s, "ml-promote-direction", format!("{line} -> true")); return; }
+                            // bytes planted in the source file travel with the promotion (they stay "planted
+                            // bytes served unvalidated" after the source file is gone)
+                            let carried: Vec<Vec<u8>> = sh.planted.get(&(*a, *k)).cloned().unwrap_or_default();
                             match src {
-                                Know::Holds(v) => sh.write(*b, *k, &v, cfg.layers[*b].dshort(), false),
+                                Know::Holds(v) => {
+                                    sh.write(*b, *k, &v, cfg.layers[*b].dshort(), false);
+                                    if carried.contains(&v) { sh.planted.entry((*b, *k)).or_default().push(v); }
+                                }
                                 Know::Absent => { self.fail(s, "ml-promote-phantom", format!("{line} -> true although layer {a} does not hold the key")); }
                                 Know::Unknown => {
                                     // the value moved is whatever layer a held: unknown to the shadow
                                     if sh.mem[*b] { for ((l, k2), c) in sh.cell.iter_mut() { if *l == *b && *k2 != *k && matches!(c, Know::Holds(_)) { *c = Know::Unknown; } } }
                                     sh.cell.insert((*b, *k), Know::Unknown);
+                                    // … but it is one of the values written to layer a for this key: each of them may now sit in layer b
+                                    let moved: Vec<(Vec<u8>, usize)> = sh.written.get(k).map(|w| w.iter().filter(|(_, l)| l == a).map(|(v, _)| (v.clone(), *b)).collect()).unwrap_or_default();
+                                    sh.written.entry(*k).or_default().extend(moved);
+                                    if !carried.is_empty() { sh.planted.entry((*b, *k)).or_default().extend(carried); }
                                 }
                             }
                             self.nontrivial.insert("promotion");
@@ -868,11 +1076,13 @@ fn run_script(s: &mut Session, lines: &[String]) -> u32 {
 // ---------------------------------------------------------------- generators
 
 fn gen_cfg(rng: &mut Rng) -> Cfg {
+    // all five eviction policies; a short default TTL now and then (every put leaves an entry that
+    // has expired by the next call)
     let m = |rng: &mut Rng, tiny: bool| LSpec::Mem {
         max: if tiny { *rng.pick(&[1usize, 1, 2, 2, 3]) } else { *rng.pick(&[2usize, 3, 4, 10]) },
         bytes: *rng.pick(&[None, None, None, Some(12usize), Some(30)]),
-        fifo: rng.chance(1, 3),
-        dshort: false,
+        pol: *rng.pick(&[Pol::Lru, Pol::Lru, Pol::Lru, Pol::Fifo, Pol::Fifo, Pol::Lfu, Pol::Lfu, Pol::Random, Pol::Random, Pol::Ttl, Pol::Ttl, Pol::Ttl]),
+        dshort: rng.chance(1, 10),
     };
     let d = LSpec::Disk { dshort: false };
     let layers = match rng.below(12) {
@@ -910,11 +1120,16 @@ fn gen_case(rng: &mut Rng, s: &mut Session, nops: usize) -> u32 {
     let disk_layers: Vec<usize> = (0..n).filter(|i| !cfg.layers[*i].is_mem()).collect();
     let lower = |rng: &mut Rng| if n > 1 { rng.range(1, n as u64 - 1) as usize } else { 0 };
     let w_fault = if disk_layers.is_empty() { 0 } else { *rng.pick(&[0u64, 6, 12]) };
+    // extra weight of puts whose TTL ends before the next call (they stay stored until somebody looks)
+    let w_short = *rng.pick(&[0u64, 0, 5, 15]);
+    // items of a batch put: a single one where the protocol excludes longer batches
+    let max_batch = if Case::outside_protocol(&Op::BPut(vec![(0, vec![]), (0, vec![])]), &cfg) { 1 } else { 4 };
     for _ in 0..nops {
         if case.timeouts > 0 { break; }
         let k = rng.below(pop as u64) as usize;
-        let x = rng.below(100 + w_fault);
+        let x = rng.below(100 + w_short + w_fault);
         let op = match x {
+            _ if x >= 100 && x < 100 + w_short => { let v = value(rng, &mut seq); Op::PutTtl(k, v, true) }
             0..=15 => { let v = value(rng, &mut seq); last.insert(k, v.clone()); Op::Put(k, v) }
             16..=27 => { let v = value(rng, &mut seq); let i = if rng.chance(1, 12) { n + rng.below(2) as usize } else if rng.chance(3, 4) { lower(rng) } else { rng.below(n as u64) as usize }; if i < n { last.insert(k, v.clone()); } Op::PutL(k, v, i) }
             28..=49 => Op::Get(k),
@@ -923,7 +1138,7 @@ fn gen_case(rng: &mut Rng, s: &mut Session, nops: usize) -> u32 {
             60..=64 => Op::Remove(k),
             65 => Op::Clear,
             66..=70 => Op::BGet((0..rng.range(0, 5)).map(|_| rng.below(pop as u64) as usize).collect()),
-            71..=74 => Op::BPut((0..rng.range(0, 4)).map(|_| { let k = rng.below(pop as u64) as usize; let v = value(rng, &mut seq); last.insert(k, v.clone()); (k, v) }).collect()),
+            71..=74 => Op::BPut((0..rng.range(0, max_batch)).map(|_| { let k = rng.below(pop as u64) as usize; let v = value(rng, &mut seq); last.insert(k, v.clone()); (k, v) }).collect()),
             75..=80 => {
                 let v = value(rng, &mut seq);
                 let ck = if rng.chance(3, 4) { md5_of(&v) } else if rng.chance(1, 2) { md5_of(b"other") } else { let mut c = md5_of(&v); c[rng.below(16) as usize] ^= 1 << rng.below(8); c };
@@ -1008,11 +1223,83 @@ fn directed(s: &mut Session, thorough: bool) -> u32 {
     t
 }
 
+/// The boundary family "a memory layer at capacity that still stores an entry whose TTL has ended
+/// and that nobody has looked at since; then a call that puts into that layer": every eviction
+/// policy x capacity 1-3 x expired entry oldest / newest x every call that reaches the layer's
+/// put (put, put_with_ttl, batch_put, put_with_validation, promote, put_to_layer, re-put of the
+/// expired key, re-put of a live key), first layer and second layer; then every key through
+/// every read path. Stops after `budget` calls that did not return.
+fn expired_at_capacity_family(s: &mut Session, budget: u32) -> u32 {
+    let mut t = 0;
+    let tail = "strat=onhit hooks=md5 skip=104857600";
+    let val = |k: usize, gen_: u8| vec![k as u8, gen_, 0xee];
+    for pol in Pol::ALL {
+        for max in 1..=3usize {
+            for late in [false, true] {
+                for trig in 0..9 {
+                    if t >= budget { return t; }
+                    let mut c = Case::begin(s, &format!("begin L=m:{max}:none:{}:long;d:long {tail}", pol.text()));
+                    // fill to capacity; key 1 carries the short TTL and is put first or last
+                    let fill: Vec<usize> = if late { (2..=max).chain([1]).collect() } else { (1..=max).collect() };
+                    for k in fill {
+                        if k == 1 { c.apply(s, &Op::PutTtl(1, val(1, 0), true)); } else { c.apply(s, &Op::Put(k, val(k, 0))); }
+                    }
+                    let v = val(9, 1);
+                    let ops = match trig {
+                        0 => vec![Op::Put(9, v)],
+                        1 => vec![Op::PutTtl(9, v, false)],
+                        2 => vec![Op::PutTtl(9, v, true)],
+                        3 => vec![Op::BPut(vec![(9, v)])],
+                        4 => vec![Op::PutV(9, md5_of(&v), v)],
+                        5 => vec![Op::PutL(9, v, 1), Op::Promote(9, 1, 0)],
+                        6 => vec![Op::PutL(9, v, 0)],
+                        7 => vec![Op::Put(1, val(1, 1))],
+                        _ => vec![Op::Put(max, val(max, 1))],
+                    };
+                    for op in &ops { if c.timeouts == 0 { c.apply(s, op); } }
+                    if c.timeouts == 0 {
+                        let keys: Vec<usize> = (1..=max).chain([9]).collect();
+                        for k in &keys { c.apply(s, &Op::Get(*k)); }
+                        c.apply(s, &Op::Stats);
+                        for k in &keys { c.apply(s, &Op::GetL(*k, 0)); }
+                        c.apply(s, &Op::BGet(keys.clone()));
+                        // a second round: the layer is at capacity again, nothing expired is left
+                        c.apply(s, &Op::Put(8, val(8, 2)));
+                        for k in &keys { c.apply(s, &Op::Get(*k)); }
+                        c.apply(s, &Op::Stats);
+                    }
+                    t += c.finish(s);
+                }
+            }
+        }
+        // the same state in a SECOND-layer memory cache (short default TTL: put_to_layer and promote
+        // use the layer's default), reached by put_to_layer and by promote from the disk layer
+        for max in 1..=2usize {
+            for trig in 0..2 {
+                if t >= budget { return t; }
+                let mut c = Case::begin(s, &format!("begin L=m:1:none:lru:long;m:{max}:none:{}:short;d:long {tail}", pol.text()));
+                for k in 1..=max { c.apply(s, &Op::PutL(k, val(k, 0), 1)); }
+                let v = val(9, 1);
+                let ops = if trig == 0 { vec![Op::PutL(9, v, 1)] } else { vec![Op::PutL(9, v, 2), Op::Promote(9, 2, 1)] };
+                for op in &ops { if c.timeouts == 0 { c.apply(s, op); } }
+                if c.timeouts == 0 {
+                    let keys: Vec<usize> = (1..=max).chain([9]).collect();
+                    for k in &keys { c.apply(s, &Op::GetL(*k, 1)); }
+                    for k in &keys { c.apply(s, &Op::Get(*k)); }
+                    c.apply(s, &Op::Stats);
+                }
+                t += c.finish(s);
+            }
+        }
+    }
+    t
+}
+
 fn main() {
     let args = Args::parse();
     quiet_panics();
     let mut s = Session::new(&args.out);
-    s.rule = "seeded histories of put / put_with_ttl / put_to_layer / get / get_from_layer / promote / remove / clear / batch_get / batch_put / put_with_validation / get_with_validation / stats over 1-3 layers (memory first layer of 1-3 entries, memory or disk below, also disk-first), all promotion strategies, hooks none/md5/ngdp/noop/failing, 2-5 keys, interleaved with deletion and corruption (bit flip, truncation, foreign bytes) of disk-layer files; every call under a watchdog; evaluations = histories; non-trivial = the history had a read served by a lower layer, a lower-layer write, a promotion, a validation reject, a corruption drop, a short TTL or a file fault; distinct = canonical request text of the whole history".into();
+    s.rule = "seeded histories of put / put_with_ttl / put_to_layer / get / get_from_layer / promote / remove / clear / batch_get / batch_put / put_with_validation / get_with_validation / stats over 1-3 layers (memory first layer of 1-3 entries, memory or disk below, also disk-first; memory layers with every eviction policy Lru / Fifo / Lfu / Random / Ttl, long or short default TTL; for Lfu / Random the victims are observed with per-layer reads and the entry count and handed to the model, which checks the choice is one the policy allows), extra weight on puts whose TTL ends before the next call, plus the directed family 'layer at capacity still storing an expired, untouched entry; then each call that puts into it' for every policy x capacity 1-3 x first / second layer, all promotion strategies, hooks none/md5/ngdp/noop/failing, 2-5 keys, interleaved with deletion and corruption (bit flip, truncation, foreign bytes) of disk-layer files; every call under a watchdog; evaluations = histories; non-trivial = the history had a read served by a lower layer, a lower-layer write, a promotion, a validation reject, a corruption drop, a short TTL, a put into a layer at capacity that may still store an expired entry, observed victims or a file fault; distinct = canonical request text of the whole history".into();
     let mut rng = Rng::new(args.seed);
 
     if let Some(p) = &args.replay {
@@ -1022,7 +1309,11 @@ fn main() {
         return;
     }
 
-    let mut timeouts = directed(&mut s, args.thorough());
+    // development aid: `--random-only` skips the directed scripts (does the seeded generator alone
+    // reach a defect?); `./check` never passes it
+    let random_only = args.extra.iter().any(|a| a == "--random-only");
+    let mut timeouts = if random_only { 0 } else { directed(&mut s, args.thorough()) };
+    if !random_only { timeouts += expired_at_capacity_family(&mut s, 4u32.saturating_sub(timeouts)); }
     let (cases, nops) = if args.thorough() { (4000, 90) } else { (350, 60) };
     for i in 0..cases {
         // a hanging build hangs on almost every history: a handful of witnesses is enough
